@@ -355,7 +355,7 @@ def rule_allof(ctx: Ctx, rule: str = "C01.allof"):
         n_true = n_false = 0
         unrec = []
         n_before = len([o for o in rep.obligations if o.status in ("violation", "known")])
-        for p in ctx.paths(fn, exc_edges="none"):
+        for p in ctx.paths(fn, exc_edges="none", comps_for_loops=True):
             if p.kind != "return":
                 rep.violation(rule, fn.loc(), f"guard executor `{name}` ends with {p.kind}", fn.key, show(p.value))
                 continue
@@ -400,7 +400,7 @@ def rule_allof(ctx: Ctx, rule: str = "C01.allof"):
             rep.floor(rule, f"False-returning paths of {name}", n_false, 1)
     # every element considered is an element of the executor itself
     fn = ctx.fn("CallbacksExecutor.async_all")
-    for p in ctx.paths(fn, exc_edges="none"):
+    for p in ctx.paths(fn, exc_edges="none", comps_for_loops=True):
         comps = [e for e in p.events if e.kind == "comp"]
         its = [e for e in p.events if e.kind in ("iter", "exhaust") and e.term is not None]
         if its:
